@@ -170,15 +170,17 @@ let () =
               let ((c1, c2), c3) = check_encoder up p evs db calls in
               let ((f1, f2), f3) = check_encoder_final up p evs trail in
               let fifo = fifo_ok up p (estate0 cache0) [] [] evs in
+              let quiet = quiet_ok up p (estate0 cache0) [] [] evs in
+              let asrt = assert_ok up p (estate0 cache0) [] [] evs in
               (match enc_run up p (estate0 cache0) [] [] evs with
                | Some (st, _) ->
                  (* asynchronous runs: get_candidates / get_dependencies requests as a multiset (concurrent queries of
                     one version set may repeat filter/sort in the implementation; no property forbids that) *)
                  let cd = List.filter (function CCands _ | CDeps _ -> true | _ -> false) in
                  let perm = List.sort compare (cd calls) = List.sort compare (cd st.e_calls) in
-                 Printf.sprintf "%s %s %s %s %s %s %s %s %d %d" (b c1) (b c2) (b perm) (b c3) (b fifo) (b f1) (b f2)
-                   (b (f3 || not issat)) (List.length st.e_db) (List.length st.e_calls)
-               | None -> "0 0 0 0 0 0 0 0 -1 -1")
+                 Printf.sprintf "%s %s %s %s %s %s %s %s %d %d %s %s" (b c1) (b c2) (b perm) (b c3) (b fifo) (b f1) (b f2)
+                   (b (f3 || not issat)) (List.length st.e_db) (List.length st.e_calls) (b quiet) (b asrt)
+               | None -> "0 0 0 0 0 0 0 0 -1 -1 0 0")
             | "logsat" ->
               (* U P log sol -> db-ok run-ok sat-ok [first bad clause index | -] *)
               let u = universe s in let p = problem s in let lg = log s in let sol = nlist s in
